@@ -13,7 +13,7 @@ import (
 // the solver decides, over all interleavings, whether two conflicting map accesses of
 // different threads can be adjacent (a data race; for a Go map also a fatal runtime error).
 // encoding/json.Marshal is replaced by a stand-in that, like the real one, walks every map
-// reachable from its argument WITHOUT taking any lock.
+// reachable from its argument and reads every template in it WITHOUT taking any lock.
 //
 //verif:replace encoding/json.Marshal verifMarshalTrace
 //verif:replace io/ioutil.WriteFile verifWriteFileTrace
@@ -21,7 +21,15 @@ import (
 func verifMarshalTrace(v interface{}) ([]byte, error) {
 	d := v.(memCacheDisk)
 	for _, sh := range d.Cache {
-		for range sh.Templates {
+		for _, t := range sh.Templates {
+			// like the reflection-based encoder: every field specifier of every template is read
+			n := 0
+			for _, f := range t.Template.FieldSpecifiers {
+				n += int(f.ElementID)
+			}
+			for _, f := range t.Template.ScopeFieldSpecifiers {
+				n += int(f.ElementID)
+			}
 		}
 	}
 	return []byte("{}"), nil
@@ -72,6 +80,24 @@ func verifTplMsg(id uint16) []byte {
 	return b
 }
 
+// one template set announcing two templates (one 8-octet field each)
+func verifTplMsg2(id1, id2 uint16) []byte {
+	b := make([]byte, 16+4+8+8)
+	b[0], b[1] = 0, 10
+	b[3] = 36
+	b[16], b[17] = 0, 2
+	b[19] = 20
+	b[20], b[21] = byte(id1>>8), byte(id1)
+	b[23] = 1
+	b[25] = 1
+	b[27] = 8
+	b[28], b[29] = byte(id2>>8), byte(id2)
+	b[31] = 1
+	b[33] = 2
+	b[35] = 8
+	return b
+}
+
 func verifDataMsg(id uint16) []byte {
 	b := make([]byte, 16+4+8)
 	b[0], b[1] = 0, 10
@@ -94,7 +120,11 @@ func VerifIPFIXCacheTraces() {
 	peer := func() { var r TemplateRecord; rpc.Get(RPCRequest{ID: k2, IP: a}, &r) }
 	decT := func() { NewDecoder(a, verifTplMsg(k1)).Decode(m) }
 	decD := func() { NewDecoder(a, verifDataMsg(k3)).Decode(m) }
-	switch verifSplit(10) {
+	// a set announcing two templates, and data for the first of them: the decoder goes on
+	// working on the set after the first template is in the cache
+	decT2 := func() { NewDecoder(a, verifTplMsg2(k1, k2)).Decode(m) }
+	decD1 := func() { NewDecoder(a, verifDataMsg(k1)).Decode(m) }
+	switch verifSplit(12) {
 	case 0:
 		verifConcurrent(ins1, ins2, get3)
 	case 1:
@@ -107,14 +137,18 @@ func VerifIPFIXCacheTraces() {
 		verifConcurrent(decT, decD, dump)
 	case 5:
 		verifConcurrent(decT, decT, decD)
-	// four threads (thorough tier)
 	case 6:
-		verifConcurrent(ins1, ins2, dump, get3)
+		verifConcurrent(decT2, decD1, get1)
 	case 7:
-		verifConcurrent(decT, decD, dump, peer)
+		verifConcurrent(decT2, decD1, dump)
+	// four threads (thorough tier)
 	case 8:
-		verifConcurrent(dump, dump, ins1, get1)
+		verifConcurrent(ins1, ins2, dump, get3)
 	case 9:
+		verifConcurrent(decT, decD, dump, peer)
+	case 10:
+		verifConcurrent(dump, dump, ins1, get1)
+	case 11:
 		verifConcurrent(ins1, ins2, get1, get3)
 	}
 	verifReach("end")
